@@ -98,7 +98,15 @@ func runSolverCtx(parent context.Context, sp solverSpec, query string, timeoutMs
 	cmd.Run()
 	ms := time.Since(t0).Milliseconds()
 	text := out.String()
-	first := strings.TrimSpace(strings.SplitN(text, "\n", 2)[0])
+	first := ""
+	for _, ln := range strings.Split(text, "\n") {
+		ln = strings.TrimSpace(ln)
+		if ln == "" || strings.HasPrefix(ln, "WARNING") || strings.HasPrefix(ln, "(warning") {
+			continue
+		}
+		first = ln
+		break
+	}
 	st := "unknown"
 	switch first {
 	case "unsat":
@@ -160,6 +168,7 @@ func parseValues(out string) map[string]string {
 // renderObligation prepares the SMT queries of an obligation (one per alternative).
 // skipHyps: indices of hypotheses to leave out (assumptions of failed obligations).
 var skipHyps map[int]bool
+var dumpCtr int
 
 func renderObligation(ex *Exec, o *Obligation, wantModel bool) []string {
 	goals := o.Alts
@@ -186,7 +195,8 @@ func renderObligation(ex *Exec, o *Obligation, wantModel bool) []string {
 		asserts = append(asserts, ng)
 		q := RenderQuery(asserts, o.ValTerms, ex.quant, "", wantModel)
 		if dn := os.Getenv("IKEVERIF_DUMPNAME"); dn != "" && strings.Contains(o.Name, dn) {
-			os.WriteFile(fmt.Sprintf("/tmp/dump_%d.smt2", len(qs)), []byte("; "+o.Name+"\n"+q), 0o644)
+			dumpCtr++
+			os.WriteFile(fmt.Sprintf("/tmp/dump_%d.smt2", dumpCtr-1), []byte("; "+o.Name+"\n"+q), 0o644)
 		}
 		qs = append(qs, q)
 	}
